@@ -220,7 +220,8 @@ class GAList(Family):
 
 class NSGA2(Family):
     name = "nsga2"
-    N, MU = 5, 12
+    N, MU = 6, 16
+    NGEN = 10          # long enough that truncated fronts and crowding-distance tie-breaks matter at a resume
     SMALL = {"MU": 4}
 
     def setup(self):
@@ -498,7 +499,54 @@ def run_packaged(name, seed, ngen, mapper=map):
     return {"gen": ngen, "population": pop, "halloffame": hof, "logbook": log}
 
 
-FAMILIES = dict((f.name, f) for f in (GAList, NSGA2, SPEA2, NSGA3Mem, GPEph, CMAES, CMA1pL, MOCMA))
+# ---- strategies built from objects the CALLER owns and re-uses (module-level constants): a second run in the same
+#      interpreter starts from the very same input objects, which a run must therefore leave untouched ----------
+
+_M = (numpy.arange(16, dtype=float).reshape(4, 4) % 5 - 2.0) / 4.0
+SHARED_C = numpy.diag(numpy.linspace(0.5, 3.0, 4)) + numpy.dot(_M, _M.T)
+SHARED_CENTROID = [2.0, -1.0, 0.5, 3.0]
+SHARED_PARENT = IndCMA([1.5, -0.5, 2.0, 0.25])
+SHARED_PARENT.fitness.values = eval_sphere(SHARED_PARENT)
+SHARED_MO_POP = [IndCMA2([((3 * i + 2 * j) % 7) / 7.0 for j in range(4)]) for i in range(6)]
+for _ind in SHARED_MO_POP:
+    _ind.fitness.values = eval_zdt1(_ind)
+
+
+class CMAESShared(CMAES):
+    name = "cma_es_shared"
+
+    def make_strategy(self, mapper):
+        return cma.Strategy(centroid=SHARED_CENTROID, sigma=1.5, lambda_=self.LAMBDA, cmatrix=SHARED_C)
+
+
+class CMA1pLShared(CMA1pL):
+    name = "cma_1pl_shared"
+
+    def make_strategy(self, mapper):
+        return cma.StrategyOnePlusLambda(SHARED_PARENT, sigma=2.0, lambda_=self.LAMBDA)
+
+
+class MOCMAShared(MOCMA):
+    name = "mo_cma_shared"
+
+    def make_strategy(self, mapper):
+        return cma.StrategyMultiObjective(SHARED_MO_POP, sigma=0.5, mu=len(SHARED_MO_POP), lambda_=self.LAMBDA)
+
+
+SHARED = ["cma_es_shared", "cma_1pl_shared", "mo_cma_shared"]
+
+
+def shared_inputs_fp():
+    return digest([fp_value(SHARED_C), fp_value(SHARED_CENTROID), fp_value(SHARED_PARENT), fp_value(SHARED_MO_POP),
+                   [id(x) for x in SHARED_MO_POP], len(SHARED_MO_POP)])
+
+
+FAMILIES = dict((f.name, f) for f in (GAList, NSGA2, SPEA2, NSGA3Mem, GPEph, CMAES, CMA1pL, MOCMA,
+                                       CMAESShared, CMA1pLShared, MOCMAShared))
+
+
+def ngen_for(family, default):
+    return getattr(FAMILIES[family.partition(":")[0]], "NGEN", default) if not family.startswith("pk_") else default
 ORDER = ["ga_list", "nsga2", "gp_eph", "cma_es", "spea2", "nsga3_mem", "cma_1pl", "mo_cma"]
 
 # ----------------------------------------------------------------------------------------------------
@@ -546,14 +594,22 @@ def fp_value(v, depth=0):
 
 
 def fp_fit(ind):
+    """Weighted values AND whatever else the selections hung on the fitness (crowding_dist is state the next
+    generation's selTournamentDCD consumes)."""
     f = getattr(ind, "fitness", None)
-    return None if f is None else [repr(x) for x in f.wvalues]
+    if f is None:
+        return None
+    return [[repr(x) for x in f.wvalues],
+            sorted([k, fp_value(x, 1)] for k, x in vars(f).items() if k != "wvalues")]
 
 
 def fp_attrs(o, depth, skip=("fitness",)):
+    """`_ps` (MO-CMA-ES parent/offspring tag) is left out: generate() rewrites it on every parent before update()
+    reads it, so its value at the end of a generation is dead scratch, not state."""
     if not hasattr(o, "__dict__"):
         return []
-    return sorted([k, fp_value(x, depth + 1)] for k, x in vars(o).items() if k not in skip and not callable(x))
+    return sorted([k, fp_value(x, depth + 1)] for k, x in vars(o).items()
+                  if k not in skip and k != "_ps" and not callable(x))
 
 
 def fp_rng():
@@ -573,9 +629,15 @@ def digest(fp):
     return _h(json.dumps(fp, sort_keys=True).encode())
 
 
+SHARED_FP0 = None
+
+
 # ----------------------------------------------------------------------------------------------------
 # running, checkpointing, resuming
 # ----------------------------------------------------------------------------------------------------
+
+SHARED_FP0 = shared_inputs_fp()      # the caller's objects as they were when this module was imported
+
 
 def make(family):
     """`name` or `name:s` (the small-population variant)."""
